@@ -44,7 +44,7 @@ func (f *Oneminus) Call(s *slip.Scope, args slip.List, depth int) (result slip.O
 	slip.CheckArgCount(s, depth, f, args, 1, 1)
 	switch ta := args[0].(type) {
 	case slip.Fixnum:
-		result = ta - 1
+		result = subFixnums(ta, 1)
 	case slip.Octet:
 		result = ta - 1
 	case slip.SingleFloat:
